@@ -5,6 +5,7 @@ import (
 	"errors"
 	"fmt"
 	"log/slog"
+	"math"
 )
 
 type ByteSize int64
@@ -15,6 +16,7 @@ var (
 	ErrUnknownUnit    = errors.New("unknown unit")
 	ErrEmptyString    = errors.New("empty string")
 	ErrInvalidFormat  = errors.New("invalid format")
+	ErrOverflow       = errors.New("size does not fit in 64 bits")
 )
 
 const (
@@ -43,34 +45,38 @@ func Parse(s string) (ByteSize, error) {
 	}
 
 	num := int64(0)
-	multiplier := int64(1)
-	foundUnit := false
+	digits := 0
 
-	for _, r := range s {
+	for i, r := range s {
 		if isDigit(r) {
-			if foundUnit {
-				return 0, fmt.Errorf("%w in: %s", ErrCharsAfterUnit, s)
-			}
-
 			digit := int64(r - '0')
+			if num > (math.MaxInt64-digit)/10 {
+				return 0, fmt.Errorf("%w in: %s", ErrOverflow, s)
+			}
 			num = num*10 + digit
-		} else {
-			if foundUnit {
-				return 0, fmt.Errorf("%w in: %s", ErrMultipleUnits, s)
-			}
-
-			unit, exists := unitRuneMap[r]
-			if !exists {
-				return 0, fmt.Errorf("%w: %c in: %s", ErrUnknownUnit, r, s)
-			}
-
-			multiplier = unit
-			foundUnit = true
-			break
+			digits++
+			continue
 		}
+
+		unit, exists := unitRuneMap[r]
+		if !exists {
+			return 0, fmt.Errorf("%w: %c in: %s", ErrUnknownUnit, r, s)
+		}
+		if digits == 0 {
+			return 0, fmt.Errorf("%w: no digits before the unit in: %s", ErrInvalidFormat, s)
+		}
+		// The unit runes are single-byte, so the unit must be the last byte.
+		if i+1 != len(s) {
+			return 0, fmt.Errorf("%w in: %s", ErrCharsAfterUnit, s)
+		}
+		if num > math.MaxInt64/unit {
+			return 0, fmt.Errorf("%w in: %s", ErrOverflow, s)
+		}
+
+		return ByteSize(num * unit), nil
 	}
 
-	return ByteSize(num * multiplier), nil
+	return 0, fmt.Errorf("%w: missing unit in: %s", ErrInvalidFormat, s)
 }
 
 func (b ByteSize) Convert(unit int64) int64 {
